@@ -2,7 +2,7 @@
    indexing, slicing, subtraction and unwrap of layout_parsing_formatting.rs is
    guarded), and equations for the spellings the serde form and the shorthand
    use. *)
-From TM Require Import Base Json RustOps Fancy Parser RustOpsLemmas LoaderTables.
+From TM Require Import Base Json RustOps Fancy Parser RustOpsLemmas StrLemmas.
 From Coq Require Import Lia Arith.
 
 (* ---------- objects ---------- *)
